@@ -75,6 +75,20 @@ Example C22_partial_zero_templated :
   spec_argv echo fs vals [] = map la_of ["echo"; "--level=0"; "-s"; "0.0"]%string.
 Proof. split; vm_compute; reflexivity. Qed.
 
+(* Optional-typed fields are classified after unwrapping (optional_type): a `bool | None` flag switched on is still a
+   flag, an `int | None` / `list[str] | None` / `MultiInputObj[str] | None` behaves like its base kind *)
+Example C22_partial_optional_kinds :
+  let fs := [mkS (la_of "force") (TOpt TBool) (SA [[Lit (la_of "--force")]] false) None (la_of " ");
+             mkS (la_of "n") (TOpt TInt) (SA [[Lit (la_of "-n")]] false) None (la_of " ");
+             mkS (la_of "m") (TOpt TMulti) (SA [[Lit (la_of "-m")]] false) None (la_of " ");
+             mkS (la_of "l") (TOpt TList) (SA [[Lit (la_of "-l")]] true) None (la_of " ");
+             mkS (la_of "q") (TOpt TBool) (SA [[Lit (la_of "-q")]] false) None (la_of " ")] in
+  let vals := [(la_of "force", VBool true); (la_of "n", VAtom (AInt 3)); (la_of "m", VList []);
+               (la_of "l", VList [AStr (la_of "a"); AStr (la_of "b")]); (la_of "q", VNone)] in
+  c22_in_domain Functional echo fs vals = true /\
+  spec_argv echo fs vals [] = map la_of ["echo"; "--force"; "-n"; "3"; "-l"; "a"; "-l"; "b"]%string.
+Proof. split; vm_compute; reflexivity. Qed.
+
 (* ---- the parts *)
 (* order: define() gives every unpositioned field a position; sorting by those positions is the stated order
    whenever each explicit non-negative position lies below the first implicit one -- whatever the fields contribute *)
@@ -92,8 +106,8 @@ Print Assumptions C22_order_dense.
 Theorem C22_omission : 
   (forall F vals nm, (forall g, In g F -> f_name g = nm -> is_unset g (lookup vals nm) = true) ->
                      is_present (drop_unset F vals) nm = false)
-  /\ (forall f, is_unset f VNone = true /\ (f_ty f = TMulti -> is_unset f (VList []) = true))
-  /\ (forall f vals argstr b, f_ty f = TBool -> f_argstr f = Some argstr -> has_char lbrace argstr = false ->
+  /\ (forall f, is_unset f VNone = true /\ (optional_type (f_ty f) = TMulti -> is_unset f (VList []) = true))
+  /\ (forall f vals argstr b, optional_type (f_ty f) = TBool -> f_argstr f = Some argstr -> has_char lbrace argstr = false ->
         lookup vals (f_name f) = VBool b ->
         command_pos_args f vals = Good (Some (f_pos f, if b then [argstr] else []))).
 Proof. exact (conj omission_unset (conj omission_none_and_empty_multi flag_rule)). Qed.
